@@ -53,3 +53,21 @@ Theorem c01_run_inverse_certified :
   forall n A Mi, inv_checked n A = Some Mi -> is_inverse n A Mi.
 Proof. exact run_inverse_certified. Qed.
 Print Assumptions c01_run_inverse_certified.
+
+(* multitask: the interleaved flattening puts all train (point, task) pairs before num_train*T *)
+Theorem c01_multitask_interleaved_split :
+  forall n T i a, (a < T)%nat -> ((i * T + a < n * T)%nat <-> (i < n)%nat).
+Proof. exact interleaved_split. Qed.
+Print Assumptions c01_multitask_interleaved_split.
+
+Theorem c01_noninterleaved_split_refuted :
+  exists n t T i a, (a < T)%nat /\ (i < n)%nat /\ ~ (a * (n + t) + i < n * T)%nat.
+Proof. exact noninterleaved_split_refuted. Qed.
+Print Assumptions c01_noninterleaved_split_refuted.
+
+(* lazy vs eager kernel evaluation: slicing the joint commutes with evaluating its entries *)
+Theorem c01_eager_lazy_blocks_agree :
+  forall (K : Fld) (k : nat -> nat -> car) r c p q,
+    meq p q (sub r c (fun i j => k i j)) (fun i j => k (r + i)%nat (c + j)%nat).
+Proof. intros K. exact (@eager_lazy_blocks_agree K). Qed.
+Print Assumptions c01_eager_lazy_blocks_agree.
